@@ -26,6 +26,16 @@ inductive SExpr where
   | param (i : Nat)              -- i-th parameter of the enclosing helper
   | lit (s : String)             -- string literal
   | other (src : String)         -- anything else (source text)
+  | moduleAccInState (name : String)
+      -- `<auth keeper>.GetModuleAccount(ctx, <name>).GetAddress().String()` (also through a one-line getter such as the SDK's
+      -- `GetGovernanceAccount`): the address string of the module account AS THE x/auth STATE HAS IT (round 4)
+  deriving DecidableEq, Repr
+
+/-- how a guard turns an address STRING into bytes before it compares (round 4) -/
+inductive Dec where
+  | acc        -- `sdk.AccAddressFromBech32`: account hrp, single case, checksum, accepted length
+  | lenient    -- `fxtypes.ParseAddress`: bech32 with ANY hrp and ANY length, else a 0x hex string in its EIP-55 spelling
+  | evm20      -- `common.BytesToAddress(<sdk-decoded bytes>)`: the LAST 20 bytes, left-padded with zeros
   deriving DecidableEq, Repr
 
 /-- boolean condition of an authority check -/
@@ -39,6 +49,10 @@ inductive BExpr where
   | or (x y : BExpr)
   | call (helper : String) (args : List SExpr)  -- `recv.helper(args)` for a bool helper; `err := recv.helper(args); err != nil` for an error helper
   | other (id : Nat) (src : String)             -- anything else
+  | decEq (d : Dec) (a b : SExpr)
+      -- the operands (encoded strings, also through locals that hold their decoded bytes) decoded with `d` are equal bytes;
+      -- a failed decoding stands for the empty byte string (round 4)
+  | decodes (d : Dec) (a : SExpr)               -- decoding `a` with `d` succeeds (`_, err := decode(a); err == nil`) (round 4)
   deriving Repr
 
 /-- statement of a helper body; the helper's value is a Bool (`true` = "returns a non-nil error" for error helpers) -/
@@ -68,6 +82,9 @@ inductive Stmt where
   | forward (needRoute : Bool) (targets : List String) (method : String)
       -- `return x.method(ctx, req)`; `needRoute`: preceded by the per-chain server lookup that errors without a route;
       -- `targets`: the concrete types `x` can have
+  | ensureModuleAcc (name : String) (src : String)
+      -- `v := <recv>.GetModuleAccount(ctx, <name>)…` (also through a one-line getter): READS the module account from the
+      -- x/auth state and CREATES it when it is missing; `v` then stands for `.moduleAccInState name` in later guards (round 4)
   deriving Repr
 
 /-- a method of some in-repo type whose request carries an `Authority` field -/
@@ -120,5 +137,33 @@ structure ProposalExec where
   breaksOnError : Bool           -- `if err != nil { break }` in the message loop
   writeGuardedByNoError : Bool   -- every `writeCache()` is inside `if err == nil { … }` after the loop
   deriving DecidableEq, Repr
+
+/-! ## the transaction pipeline (`baseapp.runTx`), statement by statement (round 4) -/
+
+/-- statement inside `if app.anteHandler != nil { … }` -/
+inductive AStep where
+  | branch                      -- `anteCtx, msCache = app.cacheTxContext(ctx, txBytes)`
+  | call (onBranch : Bool)      -- `newCtx, err := app.anteHandler(<ctx>, tx, …)`; onBranch: `<ctx>` is the branched context
+  | returnIfErr                 -- `if err != nil { … return … err }` (no Write inside)
+  | write                       -- `msCache.Write()`
+  | skip (src : String)         -- touches none of the stores (events, gas numbers, context bookkeeping)
+  | other (src : String)
+  deriving Repr
+
+/-- top-level statement of `runTx` -/
+inductive TStep where
+  | rejectIfEnv (id : Nat) (src : String)
+      -- an early `return … err` decided by the environment, before anything is written (tx decoding, block gas left,
+      -- a message without a handler)
+  | validateBasic               -- `if err := validateBasicTxMsgs(msgs); err != nil { return … }`
+  | ante (steps : List AStep)   -- `if app.anteHandler != nil { … }`
+  | branchMsgs                  -- `runMsgCtx, msCache := app.cacheTxContext(ctx, txBytes)`
+  | runMsgs (onBranch : Bool)   -- `if err == nil { result, err = app.runMsgs(<ctx>, …) }`
+  | post (onBranch : Bool)      -- `if app.postHandler != nil { … return on its error … }` on the message branch, no Write inside
+  | writeIfOk                   -- `if err == nil { … msCache.Write() … }`
+  | writeAlways                 -- `msCache.Write()` outside such a guard
+  | skip (src : String)
+  | other (src : String)
+  deriving Repr
 
 end FxVerif.Model.C16
